@@ -2,6 +2,7 @@ package main
 
 import (
 	"fmt"
+	"math"
 	"strings"
 	"time"
 
@@ -41,7 +42,12 @@ func genAgg(r *hlib.Rand) input {
 			nd := r.Range(0, 8)
 			o := aggOp{Op: "merge"}
 			for j := 0; j < nd; j++ {
-				o.Dps = append(o.Dps, u.Dp(r, now-300, now))
+				d := u.Dp(r, now-300, now)
+				if d.Type == int(gostatsd.COUNTER) && r.Bool() { // general float regime (see sys.go)
+					d.Value = math.Float64bits(generalValue(r))
+					d.Rate = math.Float64bits(generalRate(r))
+				}
+				o.Dps = append(o.Dps, d)
 			}
 			in.Ops = append(in.Ops, o)
 		case k < 7:
